@@ -395,3 +395,123 @@ Theorem C10_network_submatrix :
     NetworkClosure.NetworkP m n M -> NetworkClosure.NetworkP (length rs) (length cs) (submat M rs cs).
 Proof. exact NetworkClosure.NetworkP_submat. Qed.
 Print Assumptions C10_network_submatrix.
+
+(* ---------- everything the development proves about the two matrices of an accepted metamorphic record, per kind (RelClosureAll.v):
+   the equalities of verdicts judge_rel demands are consequences of theorems about the definitions ---------- *)
+From Cmr Require RelClosureAll.
+Local Close Scope Z_scope.
+Theorem C10_accepted_kind1_record_relates_equal_instances :
+    forall (rec p1 p2 : list Z) (m n : nat) (M : mat) (m' n' : nat) (M' : mat) (v v' rest : list Z),
+    RelProofs.rel_input rec = Some (1%Z, p1, p2, (m, n, M), (m', n', M'), v, v', rest) ->
+    RelModel.judge_rel rec = 0%Z ->
+    let rp := map Z.to_nat p1 in
+    let cp := map Z.to_nat p2 in
+    RelModel.is_perm_l m rp = true /\
+    RelModel.is_perm_l n cp = true /\
+    m' = m /\
+    n' = n /\
+    M' = submat M rp cp /\
+    (forall i : nat, i < 10 -> RelModel.same_at v v' i i = true) /\
+    tu_bf m' n' M' = tu_bf m n M /\
+    TuModel.regular_bf m' n' M' = TuModel.regular_bf m n M /\
+    (forall t : bool, SpModel.sp_greedy t m' n' M' = SpModel.sp_greedy t m n M) /\
+    SpModel.balanced_bf m' n' M' = SpModel.balanced_bf m n M /\
+    (is_binary M = true -> GraphicClosure.GraphicP m n M <-> GraphicClosure.GraphicP m' n' M') /\
+    (NetworkClosure.NetworkP m n M <-> NetworkClosure.NetworkP m' n' M').
+Proof. exact RelClosureAll.judge_rel_kind1_closure. Qed.
+Print Assumptions C10_accepted_kind1_record_relates_equal_instances.
+Theorem C10_accepted_kind2_record_relates_equal_instances :
+    forall (rec p1 p2 : list Z) (m n : nat) (M : mat) (m' n' : nat) (M' : mat) (v v' rest : list Z),
+    RelProofs.rel_input rec = Some (2%Z, p1, p2, (m, n, M), (m', n', M'), v, v', rest) ->
+    RelModel.judge_rel rec = 0%Z ->
+    length p1 = m /\
+    length p2 = n /\
+    forallb RelModel.is_pm1' p1 = true /\
+    forallb RelModel.is_pm1' p2 = true /\
+    m' = m /\
+    n' = n /\
+    M' = mk_mat m n (fun i j : nat => (nthZ p1 i * nthZ p2 j * get M i j)%Z) /\
+    (forall i : nat,
+    In i
+    [RelModel.V_TU; RelModel.V_NET; RelModel.V_CONET; RelModel.V_SPT; RelModel.V_BAL; RelModel.V_CAM] ->
+    RelModel.same_at v v' i i = true) /\
+    tu_bf m' n' M' = tu_bf m n M /\
+    SpModel.sp_greedy true m' n' M' = SpModel.sp_greedy true m n M /\
+    (is_ternary M = true -> SpModel.balanced_bf m' n' M' = SpModel.balanced_bf m n M) /\
+    (NetworkClosure.NetworkP m n M <-> NetworkClosure.NetworkP m' n' M').
+Proof. exact RelClosureAll.judge_rel_kind2_closure. Qed.
+Print Assumptions C10_accepted_kind2_record_relates_equal_instances.
+Theorem C10_accepted_kind3_record_relates_equal_instances :
+    forall (rec p1 p2 : list Z) (m n : nat) (M : mat) (m' n' : nat) (M' : mat) (v v' rest : list Z),
+    RelProofs.rel_input rec = Some (3%Z, p1, p2, (m, n, M), (m', n', M'), v, v', rest) ->
+    RelModel.judge_rel rec = 0%Z ->
+    m' = n /\
+    n' = m /\
+    M' = transpose m n M /\
+    (forall i : nat,
+    In i [RelModel.V_TU; RelModel.V_REG; RelModel.V_SPT; RelModel.V_SPB; RelModel.V_BAL; RelModel.V_CAM] ->
+    RelModel.same_at v v' i i = true) /\
+    RelModel.same_at v v' RelModel.V_GRA RelModel.V_COG = true /\
+    RelModel.same_at v v' RelModel.V_COG RelModel.V_GRA = true /\
+    RelModel.same_at v v' RelModel.V_NET RelModel.V_CONET = true /\
+    RelModel.same_at v v' RelModel.V_CONET RelModel.V_NET = true /\
+    tu_bf m' n' M' = tu_bf m n M /\
+    TuModel.regular_bf m' n' M' = TuModel.regular_bf m n M /\
+    (forall t : bool, SpModel.sp_greedy t m' n' M' = SpModel.sp_greedy t m n M) /\
+    SpModel.balanced_bf m' n' M' = SpModel.balanced_bf m n M.
+Proof. exact RelClosureAll.judge_rel_kind3_closure. Qed.
+Print Assumptions C10_accepted_kind3_record_relates_equal_instances.
+Theorem C10_accepted_kind4_record_relates_equal_instances :
+    forall (rec p1 p2 : list Z) (m n : nat) (M : mat) (m' n' : nat) (M' : mat) (v v' rest : list Z),
+    RelProofs.rel_input rec = Some (4%Z, p1, p2, (m, n, M), (m', n', M'), v, v', rest) ->
+    RelModel.judge_rel rec = 0%Z ->
+    exists isrow pos : Z,
+    p1 = [isrow; pos] /\
+    (let k := Z.to_nat pos in
+    let isr := negb (isrow =? 0)%Z in
+    (if isr
+    then m' = S m /\ n' = n /\ k < m' /\ submat M' (RelModel.keep_line m' k) (iota 0 n') = M
+    else m' = m /\ n' = S n /\ k < n' /\ submat M' (iota 0 m') (RelModel.keep_line n' k) = M) /\
+    RelModel.line_reducible true m' n' M' isr k = true /\
+    is_ternary M' = true /\
+    (forall i : nat,
+    In i
+    [RelModel.V_TU; RelModel.V_REG; RelModel.V_GRA; RelModel.V_COG; RelModel.V_NET;
+    RelModel.V_CONET; RelModel.V_SPT; RelModel.V_BAL] -> RelModel.same_at v v' i i = true) /\
+    (RelModel.line_reducible false m' n' M' isr k = true ->
+    RelModel.same_at v v' RelModel.V_SPB RelModel.V_SPB = true) /\
+    tu_bf m' n' M' = tu_bf m n M /\
+    SpModel.sp_greedy true m' n' M' = SpModel.sp_greedy true m n M /\
+    SpModel.balanced_bf m' n' M' = SpModel.balanced_bf m n M /\
+    (NetworkClosure.NetworkP m' n' M' <-> NetworkClosure.NetworkP m n M) /\
+    (RelModel.line_reducible false m' n' M' isr k = true ->
+    SpModel.sp_greedy false m' n' M' = SpModel.sp_greedy false m n M) /\
+    (RelModel.line_reducible false m' n' M' isr k = true ->
+    is_binary M' = true ->
+    TuModel.regular_bf m' n' M' = TuModel.regular_bf m n M /\
+    (GraphicClosure.GraphicP m' n' M' <-> GraphicClosure.GraphicP m n M))).
+Proof. exact RelClosureAll.judge_rel_kind4_closure. Qed.
+Print Assumptions C10_accepted_kind4_record_relates_equal_instances.
+Theorem C10_accepted_kind5_record_relates_equal_instances :
+    forall (rec p1 p2 : list Z) (m n : nat) (M : mat) (m' n' : nat) (M' : mat) (v v' rest : list Z),
+    RelProofs.rel_input rec = Some (5%Z, p1, p2, (m, n, M), (m', n', M'), v, v', rest) ->
+    RelModel.judge_rel rec = 0%Z ->
+    let rs := map Z.to_nat p1 in
+    let cs := map Z.to_nat p2 in
+    strictly_increasing rs = true /\
+    strictly_increasing cs = true /\
+    all_lt m rs = true /\
+    all_lt n cs = true /\
+    m' = length rs /\
+    n' = length cs /\
+    M' = submat M rs cs /\
+    (forall i : nat, i < 9 -> RelModel.imp_at v v' i = true) /\
+    (tu_bf m n M = true -> tu_bf m' n' M' = true) /\
+    (TuModel.regular_bf m n M = true -> TuModel.regular_bf m' n' M' = true) /\
+    (forall t : bool, SpModel.sp_greedy t m n M = true -> SpModel.sp_greedy t m' n' M' = true) /\
+    (SpModel.balanced_bf m n M = true -> SpModel.balanced_bf m' n' M' = true) /\
+    (GraphicClosure.GraphicP m n M -> GraphicClosure.GraphicP m' n' M') /\
+    (NetworkClosure.NetworkP m n M -> NetworkClosure.NetworkP m' n' M').
+Proof. exact RelClosureAll.judge_rel_kind5_closure. Qed.
+Print Assumptions C10_accepted_kind5_record_relates_equal_instances.
+Local Open Scope Z_scope.
